@@ -119,14 +119,14 @@ func runC19(c *kit.Ctx) {
 		c.Floor("R19.2", "magnet export sites", m, 1)
 
 		// fetched private metadata refused
-		h := c.Func("torrent", "(*torrent).handleMetadataMessage")
-		notPriv := c.FieldBool(h, fPrivate, false)
-		kit.Instrs(h, func(ins ssa.Instruction) {
-			if _, ok := kit.StoresField(ins, fInfo); ok {
-				c.Check(notPriv.Before(ins), "R19.2", k.key(h, "adopt metadata"), posOf(ins),
-					"metadata from a magnet link adopted only under Private==false", "private metadata fetched through a magnet link is adopted")
+		notPriv := c.FieldBoolSpec(fPrivate, false, kit.DefaultDeep)
+		for _, st := range fieldStores(c, fInfo) {
+			if st.Fn.Name() == "newTorrent" {
+				continue
 			}
-		})
+			c.Check(notPriv.Holds(st.Store, 2), "R19.2", k.key(st.Fn, "adopt metadata"), posOf(st.Store),
+				"metadata from a magnet link adopted only under Private==false", "private metadata fetched through a magnet link is adopted")
+		}
 	}
 
 	// ---- R19.3 private identity
